@@ -243,15 +243,22 @@ class _ReusablePoolExecutor(ProcessPoolExecutor):
             if _verif.ENABLED:
                 _verif.point("resize.jobs_done")
 
+            # The executor can be shut down concurrently by another thread,
+            # which drops these references once it is done: nothing to resize.
+            processes_management_lock = self._processes_management_lock
+            call_queue = self._call_queue
+            if processes_management_lock is None or call_queue is None:
+                return
+
             # Some process might have returned due to timeout so check how many
             # children are still alive. Use the _process_management_lock to
             # ensure that no process are spawned or timeout during the resize.
-            with self._processes_management_lock:
+            with processes_management_lock:
                 processes = list(self._processes.values())
                 nb_children_alive = sum(p.is_alive() for p in processes)
                 self._max_workers = max_workers
                 for _ in range(max_workers, nb_children_alive):
-                    self._call_queue.put(None)
+                    call_queue.put(None)
                 if _verif.ENABLED:
                     _verif.point("resize.sentinels_posted")
             while (
@@ -259,7 +266,13 @@ class _ReusablePoolExecutor(ProcessPoolExecutor):
             ):
                 time.sleep(1e-3)
 
-            self._adjust_process_count()
+            # As in submit, spawn the missing workers under the shutdown lock
+            # and only if the executor is not being torn down meanwhile (a
+            # worker died or another thread called shutdown): its queues are
+            # closed by the executor manager thread.
+            with self._flags.shutdown_lock:
+                if self._flags.broken is None and not self._flags.shutdown:
+                    self._adjust_process_count()
             if _verif.ENABLED:
                 _verif.point("resize.after_adjust")
             # Wake up the executor manager thread so that it also watches the
